@@ -146,6 +146,51 @@ Definition epi_factor (e : actenv) : Q := if Qle_bool 1 (cd_ratio e) then (1 / c
 (* relative conditioning of the float subtraction x - y given magnitudes *)
 Definition cond2 (x y : expr) : expr := (EAbs x +: EAbs y) /: EAbs (x -: y).
 
+(* ---- 'b' rows (activation.py lines 403-423); root, plam, lam, t are expressions *)
+Definition b_code (root plam lam t : expr) : expr :=
+  root /: (plam -: lam) *: (lam *: expm1 (ENeg plam *: t) -: plam *: expm1 (ENeg lam *: t)).
+Definition b_scale (root plam lam t : expr) : expr :=
+  EAbs root /: EAbs (plam -: lam) *: cond2 plam lam *:
+  (lam *: EAbs (expm1 (ENeg plam *: t)) +: plam *: EAbs (expm1 (ENeg lam *: t))).
+(* chain: P' = R - lp P, D' = lp P - l D; activity l D, with R = root *)
+Definition b_spec (root plam lam t : expr) : expr :=
+  root *: (c 1 -: (plam *: eexp_neg (lam *: t) -: lam *: eexp_neg (plam *: t)) /: (plam -: lam)).
+
+(* ---- '2n' rows (lines 425-445): lam_2n = k1, parent_activity = k2c + plam, product_2n = lam *)
+Definition n2_term (a b d t : expr) : expr := eexp_neg (a *: t) /: ((b -: a) *: (d -: a)).
+Definition n2_code (root lam plam k1 k2c t : expr) : expr :=
+  let pact := k2c +: plam in
+  root *: lam *: (pact -: plam) *: (n2_term k1 pact lam t +: n2_term pact k1 lam t +: n2_term lam k1 pact t).
+Definition n2_scale (root lam plam k1 k2c t : expr) : expr :=
+  let pact := k2c +: plam in
+  EAbs (root *: lam) *: (EAbs pact +: plam) *:
+  (EAbs (n2_term k1 pact lam t) *: cond2 pact k1 *: cond2 lam k1 +:
+   EAbs (n2_term pact k1 lam t) *: cond2 k1 pact *: cond2 lam pact +:
+   EAbs (n2_term lam k1 pact t) *: cond2 k1 lam *: cond2 pact lam).
+(* chain: N1' = -k1 N1, N2' = k1 N1 - kp N2, N3' = k2c N2 - l N3; activity l N3 (Bateman), kp = k2c + plam *)
+Definition n2_spec (root lam plam k1 k2c t : expr) : expr :=
+  let kp := k2c +: plam in
+  root *: lam *: k2c *: (n2_term k1 kp lam t +: n2_term kp k1 lam t +: n2_term lam k1 kp t).
+
+(* ---- all other rows (lines 448-474): burn-up of target and product *)
+Definition act_d (lam k1 kb : expr) : expr := lam -: k1 +: kb.
+Definition act_V (lam kb t : expr) : expr := (kb +: lam) *: t.
+Definition main_code (root lam k1 kb t : expr) : expr :=
+  root *: (lam /: act_d lam k1 kb *: (eexp_neg (k1 *: t) -: eexp_neg (act_V lam kb t))).
+Definition small_code (root lam k1 kb t : expr) : expr :=
+  let U := k1 *: t in let V := act_V lam kb t in
+  root *: (lam /: act_d lam k1 kb *: (V -: U +: (V +: U) /: c 2)).
+Definition act_scale_pre (root lam k1 kb : expr) : expr :=
+  EAbs root *: lam *: (lam +: EAbs k1 +: EAbs kb) /: (act_d lam k1 kb *: act_d lam k1 kb).
+Definition main_scale (root lam k1 kb t : expr) : expr :=
+  act_scale_pre root lam k1 kb *: (eexp_neg (k1 *: t) +: eexp_neg (act_V lam kb t)).
+Definition small_scale (root lam k1 kb t : expr) : expr :=
+  let U := EAbs (k1 *: t) in let V := EAbs (act_V lam kb t) in
+  act_scale_pre root lam k1 kb *: (V +: U +: (V +: U) /: c 2).
+(* chain: N1' = -k1 N1, N2' = k1 N1 - k2 N2, k2 = kb + lam; activity lam N2 / 3600 with N0 = atoms *)
+Definition act_spec (atoms lam k1 kb t : expr) : expr :=
+  lam /: c HOUR *: (atoms *: k1 /: ((kb +: lam) -: k1) *: (eexp_neg (k1 *: t) -: eexp_neg ((kb +: lam) *: t))).
+
 Definition activity_row (r : arow) (amass : Z) (mass : Q) (env : actenv) (exposure : Q) : outcome :=
   if (r_fast r && Qeq_bool (fast_ratio env) 0)%bool then OSkip else
   let epi := epi_factor env in
@@ -160,69 +205,41 @@ Definition activity_row (r : arow) (amass : Z) (mass : Q) (env : actenv) (exposu
     if Qeq_bool (r_thalf_par r) 0 then ORaise ZeroDivErr else
     if Qeq_bool (r_thalf_par r) (r_thalf r) then ORaise ZeroDivErr else
     let plam := LN2 /: c (r_thalf_par r) in
-    let a := c root /: (plam -: lam) *:
-             (lam *: expm1 (ENeg plam *: c t) -: plam *: expm1 (ENeg lam *: c t)) in
-    let m := EAbs (c root) /: EAbs (plam -: lam) *: cond2 plam lam *:
-             (lam *: EAbs (expm1 (ENeg plam *: c t)) +: plam *: EAbs (expm1 (ENeg lam *: c t))) in
-    (* chain: P' = R - lp P, D' = lp P - l D; activity l D *)
-    let spec := c root *: (c 1 -: (plam *: eexp_neg (lam *: c t) -: lam *: eexp_neg (plam *: c t)) /: (plam -: lam)) in
-    OAct BB a m lam spec
+    OAct BB (b_code (c root) plam lam (c t)) (b_scale (c root) plam lam (c t)) lam (b_spec (c root) plam lam (c t))
   else if String.eqb (r_reaction r) "2n" then
     if Qeq_bool (r_thalf_par r) 0 then ORaise ZeroDivErr else
     let plam := LN2 /: c (r_thalf_par r) in
     let effectiveXS := (r_xs_par r + epi * r_res_par r)%Q in
-    let lam_2n := c (flux * initialXS * BARN * HOUR)%Q in
+    let k1 := c (flux * initialXS * BARN * HOUR)%Q in
     let k2c := c (fluence env * BARN * HOUR * effectiveXS)%Q in
-    let pact := k2c +: plam in
-    let prod := lam in
-    let t1 := eexp_neg (lam_2n *: c t) /: ((pact -: lam_2n) *: (prod -: lam_2n)) in
-    let t2 := eexp_neg (pact *: c t) /: ((lam_2n -: pact) *: (prod -: pact)) in
-    let t3 := eexp_neg (prod *: c t) /: ((lam_2n -: prod) *: (pact -: prod)) in
-    let pre := c root *: lam *: (pact -: plam) in
-    let a := pre *: (t1 +: t2 +: t3) in
-    let m := EAbs (c root *: lam) *: (EAbs pact +: plam) *:
-             (EAbs t1 *: cond2 pact lam_2n *: cond2 prod lam_2n +:
-              EAbs t2 *: cond2 lam_2n pact *: cond2 prod pact +:
-              EAbs t3 *: cond2 lam_2n prod *: cond2 pact prod) in
-    (* chain: N1' = -k1 N1, N2' = k1 N1 - kp N2, N3' = k2c N2 - l N3; activity l N3 (Bateman) *)
-    let s1 := eexp_neg (lam_2n *: c t) /: ((pact -: lam_2n) *: (prod -: lam_2n)) in
-    let s2 := eexp_neg (pact *: c t) /: ((lam_2n -: pact) *: (prod -: pact)) in
-    let s3 := eexp_neg (prod *: c t) /: ((lam_2n -: prod) *: (pact -: prod)) in
-    let spec := c root *: lam *: k2c *: (s1 +: s2 +: s3) in
-    OAct B2n a m lam spec
+    OAct B2n (n2_code (c root) lam plam k1 k2c (c t)) (n2_scale (c root) lam plam k1 k2c (c t)) lam
+             (n2_spec (c root) lam plam k1 k2c (c t))
   else
     let effectiveXS := (r_xs_par r + epi * r_res_par r)%Q in
     let k1 := (flux * initialXS * HOUR * BARN)%Q in
     let kb := (fluence env * effectiveXS * HOUR * BARN)%Q in
     let U := (k1 * t)%Q in
-    let V := (c kb +: lam) *: c t in
-    let d := lam -: c k1 +: c kb in
-    let W := lam /: d in
     (* abs(V) < 1e-10 :  |kb*t + (t/T) ln2| < 1e-10 ; both summands have the sign of t *)
     let vsmall : option bool :=
       if Qle_bool 0 t then lin_ln2_neg (kb * t - SMALL)%Q (t / r_thalf r)%Q
       else lin_ln2_neg (- (kb * t) - SMALL)%Q (- (t / r_thalf r))%Q in
     let usmall := Qlt_bool (Qabs U) SMALL in
-    let spec := lam /: c HOUR *: c (KUCI * mass / inject_Z amass)%Q *: c k1 /: ((c kb +: lam) -: c k1)
-                *: (eexp_neg (c k1 *: c t) -: eexp_neg ((c kb +: lam) *: c t)) in
-    let mpre := EAbs (c root) *: lam *: (lam +: EAbs (c k1) +: EAbs (c kb)) /: (d *: d) in
+    let spec := act_spec (c (KUCI * mass / inject_Z amass)%Q) lam (c k1) (c kb) (c t) in
     match (if usmall then vsmall else Some false) with
     | None => OUndecided
     | Some true =>
-        let pc := W *: (V -: c U +: (V +: c U) /: c 2) in
         (* activity < 0 raises; the message formats the isotope with %g, which is a TypeError.
-           sign of W*(3V-U)/2: decided through ln 2 bounds *)
+           sign of root*W*(3V-U)/2: decided through ln 2 bounds *)
         let dneg := lin_ln2_neg (kb - k1)%Q (1 / r_thalf r)%Q in                       (* d < 0 *)
         let nneg := lin_ln2_neg (3 * kb * t - U)%Q (3 * t / r_thalf r)%Q in            (* 3V-U < 0 *)
         match dneg, nneg with
         | Some dn, Some nn =>
             if (xorb dn nn && negb (Qeq_bool root 0))%bool then ORaise TypeErr
-            else OAct BSmall (c root *: pc) (mpre *: (EAbs V +: EAbs (c U) +: (EAbs V +: EAbs (c U)) /: c 2)) lam spec
+            else OAct BSmall (small_code (c root) lam (c k1) (c kb) (c t)) (small_scale (c root) lam (c k1) (c kb) (c t)) lam spec
         | _, _ => OUndecided
         end
     | Some false =>
-        let pc := W *: (eexp_neg (c U) -: eexp_neg V) in
-        OAct BMain (c root *: pc) (mpre *: (eexp_neg (c U) +: eexp_neg V)) lam spec
+        OAct BMain (main_code (c root) lam (c k1) (c kb) (c t)) (main_scale (c root) lam (c k1) (c kb) (c t)) lam spec
     end.
 
 (* result[ai] = [activity*exp(-lam*Ti) for Ti in rest_times] *)
